@@ -10,6 +10,7 @@
   variables are new.)
 -/
 import PvModel.Proofs.Reify
+import PvModel.Proofs.ReifyGoal
 namespace Pv
 open Term
 
@@ -59,6 +60,24 @@ theorem C02_reported_answer (ord : Order) (ho : OrderOK ord) (n : Nat) (as : Lis
   rw [reifyState_congr ord st hx, reported_answer_exact ho hg hd hsc qs (by rw [hnv]; exact hq) ts]
   refine exists_congr fun γ => and_congr_left fun _ => ?_
   rw [C02_invariant_ok ord ho n as st h γ]
+
+/-- `reify(x)` AS A GOAL ON THE ENGINE (Proofs/ReifyGoal.lean), from the state a list of `==` / `!=` atoms reaches: at any
+    solver nesting level ≥ 2 and peek fuel ≥ 2, whenever `force_ans` finishes within the model's fuel, the goal — the
+    whole of `enforce_constraints_fd` (labelling, `verify_all_bound`, the `onceo` over the domain variables) followed by the
+    final atom — delivers EXACTLY ONE state, the reified state `C02_reported_answer` speaks about -/
+theorem C02_reify_goal (ord : Order) (ho : OrderOK ord) (dfs : Call → State → State × G) (pf M n : Nat) (as : List TAtom)
+    (st : State) (h : postAll ord (State.empty n) as = .ok st) (hp : st.panic = none) (x : Term)
+    (hfa : ∃ N zs, evalRef dfs N (forceAns ord forceFuel x) st = some zs ∧ ∀ t ∈ zs, t.panic = none) :
+    ∃ k, drainF (solveAt dfs (pf + 2) (M + 2)) k (solveAt dfs (pf + 2) (M + 2) (reifyG ord x) st) =
+      some [reifyState ord st x] := by
+  have hg := (postAll_ok ord ho _ _ as (good_empty n) h).1
+  have hst : ∀ p ∈ st.store, p.2.isFD = false := fun p hp' => by
+    have := hg.2.1.1 p hp'
+    cases hc : p.2 <;> simp_all [Cst.isDiseq, Cst.isFD]
+  have a := @reifyG_tree Mode.strict ord ho dfs pf M st hg.2.1.2 hp hst x hfa
+  obtain ⟨k, ys, hk, py⟩ := drain_perm _ (topOK_solveAt dfs (pf + 2) (M + 1)) a
+  have : ys = [reifyState ord st x] := (List.singleton_perm.1 py).symm ▸ rfl
+  exact ⟨k, by rw [← this]; exact hk⟩
 
 /-- the goal `reify` ends with is the atom that computes this state -/
 theorem C02_reify_is_reifyState (ord : Order) (x : Term) :
